@@ -102,6 +102,8 @@ pub struct Outcome {
     /// number of commits that were in tables (not only in the WAL) when the run ended
     pub flushed_commits: usize,
     pub failed_writes: Vec<(Key, Op)>,
+    /// commits that returned an error: (number of successful commits before it, error text, its writes in issue order)
+    pub failed_commits: Vec<(usize, String, Vec<(Key, Op)>)>,
 }
 
 #[derive(Clone, Debug)]
@@ -173,6 +175,7 @@ pub struct Exec<'a> {
     flushed_commits: usize,
     /// writes of commits that returned an error (fault injection): none of them may ever be visible
     pub failed_writes: Vec<(Key, Op)>,
+    pub failed_commits: Vec<(usize, String, Vec<(Key, Op)>)>,
 }
 
 type R<T> = std::result::Result<T, Failure>;
@@ -182,6 +185,13 @@ pub fn marker(on: bool, text: &str) {
         unsafe {
             libc::write(-4242, text.as_ptr() as *const libc::c_void, text.len());
         }
+    }
+}
+
+fn show_opt(v: &Option<Vec<u8>>) -> String {
+    match v {
+        None => "nothing".into(),
+        Some(b) => format!("a value of {} bytes (hash {:x})", b.len(), crate::util::hash64(&b[..])),
     }
 }
 
@@ -446,6 +456,41 @@ impl<'a> Exec<'a> {
         Ok(())
     }
 
+    /// Every key written by a commit that returned an error must read as the model says (the model never
+    /// received that commit), from a transaction begun now.
+    fn failed_invisible(&mut self, what: &str) -> R<()> {
+        let h = self.model.len();
+        let txn = match self.tree().begin_with_mode(Mode::ReadOnly) {
+            Ok(t) => t,
+            Err(_) => return Ok(()),
+        };
+        let keys: Vec<(Key, Op)> = self.failed_writes.clone();
+        for (k, op) in keys.iter() {
+            let exp = self.model.latest(h, k);
+            match txn.get(k.as_slice()) {
+                Ok(g) => {
+                    let gb = g.as_ref().map(|v| v.to_vec());
+                    let eb = exp.map(|v| v.bytes());
+                    if gb != eb {
+                        let mine = match (op.value(), &gb) {
+                            (Some(v), Some(g)) => *g == v.bytes(),
+                            (None, None) => true,
+                            _ => false,
+                        };
+                        return self.fail_aux(
+                            "failed-commit-visible",
+                            format!("{what}: key {} reads {} but the last successful commit left {}; {}", key_str(k), show_opt(&gb), show_opt(&eb), if mine { "this is the write of a transaction whose commit() returned an error" } else { "(not the failed transaction's own value)" }),
+                            self.aux(),
+                        );
+                    }
+                }
+                Err(_) => {}
+            }
+        }
+        self.stats.inc("failed_commit_invisibility_checked");
+        Ok(())
+    }
+
     // ---------- sweep ----------
 
     /// Compare the whole visible state (from a fresh transaction) with the model at its full horizon.
@@ -461,7 +506,7 @@ impl<'a> Exec<'a> {
         // writes of commits that returned an error must not be visible (values carry unique tags)
         for (k, op) in self.failed_writes.iter() {
             if let (Some(v), Ok(Some(g))) = (op.value(), txn.get(k.as_slice())) {
-                if g == v.bytes() && self.model.latest(h, k) != Some(v) {
+                if g == v.bytes() && self.model.latest(h, k).map(|m| m.bytes()) != Some(v.bytes()) {
                     return self.fail_aux("failed-commit-visible", format!("{what}: key {} shows the value {:?} written by a transaction whose commit() returned an error", key_str(k), v), self.aux());
                 }
             }
@@ -1322,7 +1367,17 @@ impl<'a> Exec<'a> {
             sl.txn.set_durability(Durability::Immediate);
         }
         let clock_before = self.clock.peek();
+        let judged = !(sl.closed || sl.mode == TMode::RO);
+        let cidx = self.model.len();
+        let emit = self.opts.markers && judged && !sl.pending.map.is_empty();
+        marker(emit, &format!("B {cidx}"));
         let r = sl.txn.commit().await;
+        if emit {
+            match &r {
+                Ok(()) => marker(true, &format!("A {cidx} {}", if sync { 1 } else { 0 })),
+                Err(_) => marker(true, &format!("F {cidx}")),
+            }
+        }
         if sl.closed || sl.mode == TMode::RO {
             if self.opts.judge_rejections {
                 match r {
@@ -1377,6 +1432,23 @@ impl<'a> Exec<'a> {
                 let mut sl = self.slots[s].take().unwrap();
                 sl.cursor = None;
                 drop(sl);
+                if self.opts.tolerate_commit_errors && !writes.is_empty() {
+                    self.failed_writes.extend(writes.iter().map(|w| (w.1.key.clone(), w.1.op)));
+                    self.failed_commits.push((cidx, "conflict".into(), writes.iter().map(|w| (w.1.key.clone(), w.1.op)).collect()));
+                    self.failed_invisible("right after the conflicting commit")?;
+                }
+            }
+            (Err(e), _) if self.opts.tolerate_commit_errors && !matches!(e, Error::TransactionWriteConflict | Error::TransactionRetry) => {
+                // injected I/O failure (or the sticky background error that follows one)
+                self.stats.inc("failed_commits");
+                let mut sl = self.slots[s].take().unwrap();
+                sl.cursor = None;
+                drop(sl);
+                if !writes.is_empty() {
+                    self.failed_writes.extend(writes.iter().map(|w| (w.1.key.clone(), w.1.op)));
+                    self.failed_commits.push((cidx, err_name(&e), writes.iter().map(|w| (w.1.key.clone(), w.1.op)).collect()));
+                    self.failed_invisible("right after the failed commit")?;
+                }
             }
             (Err(e), _) => {
                 let class = if matches!(e, Error::TransactionWriteConflict | Error::TransactionRetry) { "spurious-conflict" } else { "commit-error" };
@@ -1446,7 +1518,12 @@ impl<'a> Exec<'a> {
                 marker(self.opts.markers, &format!("F {cidx}"));
                 self.stats.inc("failed_commits");
                 self.failed_writes.extend(pend.iter().map(|(k, pe)| (k.clone(), pe.op)));
+                let mut ws: Vec<(u32, Key, Op)> = pend.iter().map(|(k, pe)| (pe.n, k.clone(), pe.op)).collect();
+                ws.sort_by_key(|w| w.0);
+                self.failed_commits.push((cidx, err_name(&e), ws.into_iter().map(|w| (w.1, w.2)).collect()));
                 drop(txn);
+                // C15: nothing of a failed commit may be visible to a transaction begun afterwards
+                self.failed_invisible("right after the failed commit")?;
                 return Ok(());
             }
             return self.fail_aux("commit-error", format!("one-shot commit failed: {}", err_name(&e)), self.aux());
@@ -1519,6 +1596,7 @@ pub async fn run_case(case: &Case, dir: &Path, opts: &ExecOpts) -> Outcome {
         key_window: None,
         flushed_commits: 0,
         failed_writes: Vec::new(),
+        failed_commits: Vec::new(),
     };
     let failure = run_inner(&mut ex).await.err();
     // best-effort teardown
@@ -1530,7 +1608,7 @@ pub async fn run_case(case: &Case, dir: &Path, opts: &ExecOpts) -> Outcome {
             tokio::task::yield_now().await;
         }
     }
-    Outcome { stats: ex.stats, failure, answers: ex.answers, model: ex.model, flushed_commits: ex.flushed_commits, failed_writes: ex.failed_writes }
+    Outcome { stats: ex.stats, failure, answers: ex.answers, model: ex.model, flushed_commits: ex.flushed_commits, failed_writes: ex.failed_writes, failed_commits: ex.failed_commits }
 }
 
 async fn run_inner(ex: &mut Exec<'_>) -> R<()> {
